@@ -145,6 +145,13 @@ def worker(ctx, job):
             fsutil.wipe(real_cache)
             fsutil.wipe(dest)
             expected_keys = ["bystander"]
+            if temp == "dangling-link":
+                # an earlier link of the same bytes whose target has since been deleted
+                old_target = os.path.join(outside, "old-link-target")
+                with open(old_target, "wb") as fh:
+                    fh.write(ref.gen(OLD["n"], OLD["tag"]))
+                srv.call({"op": "link_to_sync", "cache": real_cache, "key": "earlier-link", "target": old_target})
+                os.unlink(old_target)
             if temp == "tmp-blocked":
                 # a healthy cache whose tmp/ has been replaced by a regular file: every writer has to fail inside the root
                 wr.do_write(srv, real_cache, side="s", entry="oneshot", key="bystander", n=3, tag=1)
@@ -285,6 +292,8 @@ def main(tier, seed=0):
             jobs.append({"flavour": flavour, "side": side, "temp": "warm", "rootform": "abs", "ops": sorted(EXTRACT), "keys": keys[:2], "dest_exists": de})
         jobs.append({"flavour": flavour, "side": side, "temp": "tmp-blocked", "rootform": "abs", "ops": ["write", "write_with_algo", "writer", "writer_dropped", "writer_create", "link_to"], "keys": keys[:3]})
         jobs.append({"flavour": flavour, "side": side, "temp": "tmp-blocked", "rootform": "abs", "ops": ["write_hash", "link_to_hash", "list", "read_hash"], "keys": []})
+        jobs.append({"flavour": flavour, "side": side, "temp": "dangling-link", "rootform": "abs", "ops": ["link_to", "write", "read"], "keys": keys[:2]})
+        jobs.append({"flavour": flavour, "side": side, "temp": "dangling-link", "rootform": "abs", "ops": ["link_to_hash", "write_hash", "read_hash", "exists"], "keys": []})
     if quick:
         jobs.append({"flavour": "sync", "side": "s", "temp": "warm", "rootform": "rel", "ops": KEYED[:6] + UNKEYED, "keys": keys[:4]})
         jobs.append({"flavour": "astd", "side": "a", "temp": "warm", "rootform": "symlink", "ops": KEYED[:6] + UNKEYED, "keys": keys[:4]})
